@@ -1,10 +1,43 @@
-(* Properties_C04.v — placeholder until NodeSeqProofs.v / ConcModel land; see DESIGN.md 4 C04. *)
-From PD Require Import Base NodeModel NodeObs.
-Open Scope string_scope. Open Scope list_scope.
+(* Properties_C04.v — C04: nodes pipelines compute exactly their sequential reference semantics.
+   Model: NodeModel.v; [sem] is the obvious list function (map f, chunking honouring drop_last,
+   concatenation, filter, identity for Prefetcher, the wrapped order for wrappers).
+   Statements only; proofs in NodeSeqProofs.v.  The interleaving-level statement for the threads of
+   ParallelMapper/Prefetcher is in Properties_C06.v / ConcModel. *)
+From PD Require Import Base NodeModel NodeSeqProofs.
+Open Scope string_scope. Open Scope list_scope. Open Scope nat_scope.
+
+Theorem C04_first_epoch_is_sem : forall p, pipe_ok p = true ->
+  fst (node_run p (FUEL p) (node_reset p RUninit None)) = sem p 0.
+Proof. exact first_epoch_is_sem. Qed.
+Print Assumptions C04_first_epoch_is_sem.
+
+(* every epoch obtained by resetting and re-iterating is again complete; the sampler epoch
+   advances by exactly one per epoch *)
+Theorem C04_every_epoch_is_sem : forall p n, pipe_ok p = true ->
+  fst (epochs_run p n) = map (sem p) (seq 0 n).
+Proof. exact every_epoch_is_sem. Qed.
+Print Assumptions C04_every_epoch_is_sem.
+
+(* prebatch does not change results *)
+Theorem C04_prebatch_invisible : forall (g : item -> item) n (xs : list item), 0 < n ->
+  flat_map batch_items (map (fun b => IList (map g (batch_items b))) (chunk_items (S (length xs)) n false xs)) = map g xs.
+Proof. exact prebatch_invisible. Qed.
+Print Assumptions C04_prebatch_invisible.
+
+Theorem C04_unbatch_batch_sem : forall n q e, 0 < n -> sem (PUnbatch (PBatch n false q)) e = sem q e.
+Proof. exact unbatch_batch_sem. Qed.
+Print Assumptions C04_unbatch_batch_sem.
+
+(* after exhaustion every later next() is StopIteration — never an item, never an error *)
+Theorem C04_stop_is_sticky : forall p t fuel l t', pipe_ok p = true -> reachable p t ->
+  node_run p fuel t = (l, t') -> length l < fuel ->
+  forall t'', after p t' t'' -> fst (node_next p t'') = OStop.
+Proof. exact stop_is_sticky. Qed.
+Print Assumptions C04_stop_is_sticky.
+
 Example C04_example :
   let xs := map INat [0;1;2;3;4;5;6] in
-  node_epochs_obs (PFilter QEven (PMap (FAdd 1) (PSrc xs false))) 1
-  = OL [OL [OL [OZ 2; OZ 4; OZ 6]; OL [OZ 2; OZ 4; OZ 6]]].
-Proof. vm_compute. reflexivity. Qed.
-Theorem C04_placeholder : True. Proof. exact I. Qed.
-Print Assumptions C04_placeholder.
+  fst (epochs_run (PFilter QEven (PMap (FAdd 1) (PBatch 2 true (PSrc xs false)))) 2) = [[]; []] /\
+  fst (epochs_run (PUnbatch (PMap (FAdd 1) (PBatch 2 true (PSrc xs true)))) 2)
+    = [map INat [1;2;3;4;5;6]; map INat [1;2;3;4;5;6]].
+Proof. vm_compute. split; reflexivity. Qed.
